@@ -61,6 +61,11 @@ def observe(st, with_q=False):
             'ops': list(shx.symmcards)}
 
 
+def is_h(a):
+    """hydrogen for the bonding rule: H and its isotopes, by element symbol (not through Atom.ishydrogen)"""
+    return (a.element or '').upper() in ('H', 'D', 'T')
+
+
 def metric_constants_ok(ob):
     """the six metric constants of the SDM object against a^2, b^2, c^2, ab cos(gamma), ac cos(beta), bc cos(alpha) of the cell (they are inputs of
     the mirrored model, so they are checked by construction here); returns None or a description of the first difference"""
@@ -83,7 +88,7 @@ def coq_defs(ob, k):
     al = []
     for a in atoms:
         al.append('{| sa_x := %s; sa_y := %s; sa_z := %s; sa_h := %s; sa_part := %s; sa_radius := %s; sa_qpeak := %s; sa_an := %s |}' % (
-            fl(a.x), fl(a.y), fl(a.z), cbool(a.ishydrogen), cz(a.part.n), fl(gs.radius(a.element) if a.element else a.radius), cbool(a.qpeak), cz(a.an)))      # radius: by element symbol from the table
+            fl(a.x), fl(a.y), fl(a.z), cbool(is_h(a) if a.element else a.ishydrogen), cz(a.part.n), fl(gs.radius(a.element) if a.element else a.radius), cbool(a.qpeak), cz(a.an)))      # radius: by element symbol from the table
     d.append('Definition ats%d : list (satom (T:=float)) := %s.' % (k, clist(al)))
     ol = []
     for o in ops:
